@@ -1415,7 +1415,7 @@ int bufr_apply_tables2node
    switch ( cb->encoding.type )
       {
       case TYPE_CCITT_IA5 :
-         if (ddo->redefine_ccitt_ia5 > 0)
+         if ((ddo->redefine_ccitt_ia5 > 0)&&(f == 0)) /* Table B elements only, not 2 05 YYY */
             cb->encoding.nbits = ddo->redefine_ccitt_ia5 * 8;
          break;
       case TYPE_NUMERIC :
